@@ -33,6 +33,47 @@ def load_known():
     return out
 
 
+class Borrow:
+    """Several properties rest on the same structural fact (e.g. C04's precedence and C07's tag gate both
+    need `importants` probed with the enabled tags). The rule is written once, in the module of the property
+    it is most specific to, and re-evaluated by each property that depends on it; the obligations are
+    recorded under the borrowing property so that its own check reports the breakage. `only` restricts the
+    borrowed obligations to the instances relevant to the borrower (floors are then dropped: they count
+    the full rule). An instance that is a listed known finding of the origin property is reported there,
+    not here."""
+
+    def __init__(self, run, origin, only=None, why=""):
+        self._run = run
+        self._origin = origin
+        self._only = re.compile(only) if only else None
+        self._why = why
+        self._known = load_known()
+
+    def __getattr__(self, name):
+        return getattr(self._run, name)
+
+    def _rule(self, rule):
+        return f"{self._run.pid}.via.{rule}"
+
+    def ob(self, rule, inst, ok, desc, site="", detail="", status=None, config=""):
+        if self._only and not self._only.search(f"{rule}|{inst}"):
+            return ok
+        if not ok and (self._origin, f"{rule}|{inst}") in self._known:
+            return ok
+        if self._why and not ok:
+            desc = f"{desc}  [needed by {self._run.pid}: {self._why}]"
+        return self._run.ob(self._rule(rule), inst, ok, desc, site=site, detail=detail, status=status,
+                            config=config)
+
+    def floor(self, rule, what, count, minimum):
+        if self._only:
+            return
+        Run.floor(self, rule, what, count, minimum)
+
+    def guard(self, rule, inst, fn):
+        return Run.guard(self, rule, inst, fn)
+
+
 class Run:
     def __init__(self, pid, tier, seed=0):
         self.pid = pid
@@ -110,6 +151,11 @@ class Run:
                     f"checker precondition failed while evaluating rule ({type(e).__name__}: {e})",
                     status="UNDISCHARGED", detail=tb)
         return None
+
+    def borrow(self, origin, only=None, why=""):
+        """a view of this run for evaluating a rule function that belongs to property `origin`:
+        its obligations are recorded here under `<pid>.via.<origin rule>`"""
+        return Borrow(self, origin, only, why)
 
     # ------------------------------------------------------------ finish
     def finish(self, only_key=None):
